@@ -107,6 +107,10 @@ class Interp:
                                      str(_counter[0]))
         if self.cfg.get('odd_root'):    # glob characters in the root's name
             self.root_dir = os.path.join(self.root_dir, 'ro[o]t x*')
+        base_ = os.path.join(f'{SCRATCH}-{os.getpid()}', str(_counter[0]))
+        if os.path.exists(base_):
+            # (left behind by a dead process that had this pid)
+            shutil.rmtree(base_, ignore_errors=True)
         os.makedirs(self.root_dir)
         for rel, kind in self.cfg['tree']:
             p = os.path.join(self.root_dir, rel)
